@@ -40,6 +40,14 @@ DateText(y, m, d) == Pad4(y) \o "-" \o Pad2(m) \o "-" \o Pad2(d)
 StampText(t, off) == LET x == LocalTime(t, off) IN
   DateText(x.y, x.m, x.d) \o " " \o Pad2(x.hh) \o ":" \o Pad2(x.mi) \o ":" \o Pad2(x.ss)
 
+(* A zone with daylight saving time, code 1: US Eastern (TZ = EST5EDT,M3.2.0,M11.1.0) in 2016 and 2017.  UTC-4 between the   *)
+(* second Sunday of March 02:00 and the first Sunday of November 02:00 local time, UTC-5 otherwise.  Zone codes other than 1 *)
+(* are fixed offsets in seconds east of UTC.                                                                                 *)
+DstOffAt(t) == IF (t >= 1457852400 /\ t < 1478412000) \/ (t >= 1489302000 /\ t < 1509861600) THEN 0 - 14400 ELSE 0 - 18000
+ZoneOffAt(z, t) == IF z = 1 THEN DstOffAt(t) ELSE z
+(* the offset in force on a local calendar day that is not a transition day *)
+ZoneOffOn(z, y, m, d) == IF z # 1 THEN z ELSE DstOffAt(DaysFromCivil(y, m, d) * 86400 + 43200)
+
 IsLeap(y) == (y % 4 = 0 /\ y % 100 # 0) \/ y % 400 = 0
 DaysInMonth(y, m) == IF m = 2 THEN (IF IsLeap(y) THEN 29 ELSE 28) ELSE IF m \in {4, 6, 9, 11} THEN 30 ELSE 31
 =============================================================================
